@@ -15,9 +15,10 @@ CONSTANTS MaxCalls, MaxAddrs, MaxEvents, MaxSockets, MaxWorkers,
           TokenPerCall,       \* NEG (design FALSE): `bind` allocates ONE token and one factory per call (not per socket)
           TokenForFailed,     \* NEG (design FALSE): a token is consumed for every RESOLVED address, also those whose bind failed
           UdsKeepsToken,      \* NEG (design FALSE): listen_uds reads the counter without advancing it
-          ServeWhilePending   \* NEG (design FALSE): a worker calls the ready services although another one is pending
+          ServeWhilePending,  \* NEG (design FALSE): a worker calls the ready services although another one is pending
+          StopServesQueued    \* NEG (design FALSE): connections queued at a worker are served (not released) when the server stops
 
-VARIABLES phase,      \* "build" | "failed" (a bind call returned Err) | "running" | "panicked"
+VARIABLES phase,      \* "build" | "failed" (a bind call returned Err) | "running" | "panicked" | "stopped"
           calls,      \* the builder calls so far: [kind, addrs (Seq of BOOLEAN: TRUE = the address can be bound)]
           tok,        \* ServerBuilder.token
           factories,  \* Seq of [tok, call]
@@ -168,11 +169,20 @@ UnpendObs(c, bys) ==
   /\ UNCHANGED <<phase, calls, tok, factories, sockets, nw, svc, made, failNext, dead, done>>
 Unpend(c) == UnpendObs(c, ModelLate)
 
+\* the server is stopped while clients wait in the workers' queues: every queued connection is released (closed), none is
+\* served, whether the stop is graceful or forced.  `released` / `served`: what the waiting clients saw (model: all / none)
+StopObs(released, served) ==
+  /\ phase = "running" /\ ~done /\ failNext = 0 /\ dead = 0 /\ pend # {}
+  /\ phase' = "stopped" /\ done' = TRUE /\ waiting' = <<>>
+  /\ events' = Append(events, [k |-> "stop", nwait |-> Len(waiting), released |-> released, served |-> served])
+  /\ UNCHANGED <<calls, tok, factories, sockets, nw, svc, made, failNext, pend, dead>>
+Stop == Len(events) < MaxEvents /\ (IF StopServesQueued THEN StopObs(0, Len(waiting)) ELSE StopObs(Len(waiting), 0))
+
 Finish == /\ phase = "running" /\ ~done /\ failNext = 0 /\ pend = {} /\ events # <<>> /\ done' = TRUE
           /\ UNCHANGED <<phase, calls, tok, factories, sockets, nw, svc, made, failNext, pend, waiting, dead, events>>
 
 Next == (\E a \in AddrLists : Bind(a)) \/ Listen("listen") \/ Listen("uds") \/ (\E w \in 1..MaxWorkers : Run(w))
-        \/ (\E p \in 1..MaxSockets : Conn(p)) \/ (\E c \in 1..MaxCalls : FailReady(c) \/ Pend(c) \/ Unpend(c)) \/ Die \/ DieBoth \/ Finish
+        \/ (\E p \in 1..MaxSockets : Conn(p)) \/ (\E c \in 1..MaxCalls : FailReady(c) \/ Pend(c) \/ Unpend(c)) \/ Die \/ DieBoth \/ Stop \/ Finish
 Spec == Init /\ [][Next]_vars
 
 (* ---- properties ---- *)
@@ -194,6 +204,9 @@ C07_NoCallWhilePending ==
 \* service - once every service is ready again
 C07_WaitsThenServed ==
   \A k \in 1..Len(events) : events[k].k = "late" => events[k].by = sockets[events[k].s].call
+\* C01: connections still queued at a worker when the server stops are released, not served and not leaked
+C01_QueuedReleasedAtStop ==
+  \A k \in 1..Len(events) : events[k].k = "stop" => (events[k].released = events[k].nwait /\ events[k].served = 0)
 \* the worker starts and nothing panics
 B_NoPanic == phase # "panicked"
 \* C07 / C08: a failed service is rebuilt from its own factory (the tag survives) and only it (one more instance)
